@@ -23,6 +23,15 @@ Classification in every call form and at every moment: the C++ translator lists 
          through any alias (tools/c03_py_alias.py; `mutationSites`, theorem C03_classification_tables_never_modified) and
          executes each site in a fresh interpreter; stage D reports each differing (form, message type) and each site with
          the tables before/after and the resulting differences from the C++ classification.
+Every language standard: the Lean tables are printed by the probe compiled with the project's own standard (CMAKE_CXX_STANDARD
+         of the repository's CMakeLists.txt, read by the translator); the probe is rebuilt under every later standard (c++14,
+         c++17, c++20; thorough: with both compilers) and each table goes through the same stage-D judgement against Python
+         (`diff_variants`): a finding names the compiler and the standard, signature `<signature>/std=c++NN`.
+After use:  the registry relation is re-observed in a fresh interpreter after each public entry point that handles payload
+         classes has been exercised on a generated log with gaps for every type (tools/c03_py_usage.py: encode, decode,
+         MixedLogReader, DataLoader.read, time alignment DROP / INSERT, numpy conversion, look-ups, import of every module);
+         every snapshot is judged like the table (`diff_usage`: which entry point, which type, which classes), and every class
+         statement outside messages/*.py whose base is a payload class is a finding of its own.
 """
 import json
 import os
@@ -37,6 +46,7 @@ import c03_common as cc          # noqa: E402
 import c03_cxx_extract as cx     # noqa: E402
 import c03_py_extract as px      # noqa: E402
 import c03_py_access as pacc     # noqa: E402
+import c03_py_usage as pus       # noqa: E402
 
 MODULES = ['FeVerif.Props.C03']
 GEN = os.path.join(fv.LEAN, 'FeVerif', 'Generated')
@@ -233,14 +243,49 @@ def correspond(ctx, cxx, py):
 
 
 # ---- stage D: the oracle = plain diff of the two tables ----------------------------------------------
-def diff_tables(ctx, cxx, py, only=None):
+class _Variant(object):
+    """The same context, case texts prefixed with the compiler configuration (a case under another standard is another case)."""
+
+    def __init__(self, ctx, tag):
+        self._ctx, self._tag = ctx, tag
+
+    def case(self, text, **kw):
+        return self._ctx.case('[%s] %s' % (self._tag, text), **kw)
+
+    def __getattr__(self, name):
+        return getattr(self._ctx, name)
+
+
+def config_text(cxx):
+    c = cxx.get('config') or {}
+    return '%s -std=%s' % (c.get('compiler'), c.get('std'))
+
+
+def diff_tables(ctx, cxx, py, only=None, variant=None, reported=None):
+    """variant=None: the tables of the project's own language standard (the ones the Lean theorems are about).
+    variant='std=c++14' ...: the same judgement on the tables printed under another standard / compiler; a finding that the
+    project's own standard shows identically (same witness, same values) is not repeated, every other one gets its own
+    signature `<signature>/<variant>` and names the configuration."""
     pairs, exempt = pairing()
     cenum = dict((e['name'], e) for e in cxx['enums'] + cxx['const_groups'])
     penum = dict((e['name'], e) for e in py['enums'] if e['kind'] == 'declared')
+    reported = reported if reported is not None else set()
+    cfg = config_text(cxx)
+    if variant is not None:
+        ctx = _Variant(ctx, variant)
 
     def viol(sig, desc, replay):
+        if variant is None:
+            reported.add((sig, desc))
+            if not sig.startswith('C03/classification-tables-modified/'):
+                desc += ' [C++ side: %s, the CMAKE_CXX_STANDARD of the repository]' % cfg
+        else:
+            if (sig, desc) in reported:
+                return                  # the project's own standard shows the same witness with the same values
+            sig = '%s/%s' % (sig, variant)
+            desc = '[C++ side compiled with %s] %s' % (cfg, desc)
         if only is None or sig == only:
-            ctx.violation(sig, desc, replay)
+            ctx.violation(sig, desc, dict(replay, cxx_config=cfg))
 
     def where(e):
         return {'file': e.get('file', e.get('module')), 'line': e.get('line')}
@@ -341,7 +386,7 @@ def diff_tables(ctx, cxx, py, only=None):
                       'observe': '%s vs is_%s(MessageType.%s)' % (f['call'].replace('NAME', m_show), key, m_show)})
     for fn in ('IsCommand', 'IsResponse'):
         if not any(f['function'] == fn for f in cxx['call_forms']):
-            ctx.disagree('no declaration of %s was found in the headers' % fn, {})
+            ctx.disagree('no declaration of %s was found in the headers (%s)' % (fn, cfg), {})
     # --- the tables stay what they are: no statement of the package modifies them after their definition ---
     groups = {}
     for st in py['mutation_sites']:
@@ -350,6 +395,8 @@ def diff_tables(ctx, cxx, py, only=None):
     cxx_names = {'is_command': set(tname[v] for _, v, ic, _ in cxx['classification'] if ic),
                  'is_response': set(tname[v] for _, v, _, ir in cxx['classification'] if ir)}
     for (obj, file, fn), sts in sorted(groups.items()):
+        if variant is not None:
+            break                       # Python only: judged once
         ctx.case('modification of %s in %s:%s' % (obj, file, fn), nontrivial=True)
         demo = sts[0].get('demo') or {}
         stmts = '; '.join('%s:%d `%s`' % (file, st['line'], st['statement'][:90]) for st in sts[:3]) + \
@@ -440,6 +487,8 @@ def diff_tables(ctx, cxx, py, only=None):
         if (r['name'], r['type'], r['version']) not in names:
             viol('C03/registry/%s/registered-but-not-a-payload-class' % r['name'], 'message_type_to_class holds %s for type %d, which '
                  'is not among the MessagePayload subclasses' % (r['name'], r['type']), {'registry_entry': r})
+    if variant is not None:
+        return
     for k in ('enumerators_compared', 'message_types_classified', 'payload_structs', 'call_form_results_compared'):
         ctx.cov['input_distribution'].setdefault(k, 0)
     ctx.cov['input_distribution']['classification_call_forms'] = [f['text'] for f in cxx['call_forms']]
@@ -598,6 +647,223 @@ def diff_access(ctx, cxx, py, runs, only=None):
         ctx.cov['input_distribution']['access_paths'] = [pth['expression'] for pth in runs[0]['paths']]
 
 
+# ---- the C++ tables under every language standard the project supports --------------------------------------
+def other_configs(ctx, cxx):
+    """[(variant label, compiler, std)]: every standard from the project's own (CMAKE_CXX_STANDARD) upwards, with the
+    compiler of the tables; in the thorough tier with both compilers.  The configuration of the tables themselves is left out."""
+    first, stds = cx.project_standards(fv.REPO)
+    main_cxx = cxx['config']['compiler']
+    compilers = [main_cxx]
+    if ctx.thorough:
+        other = 'clang++' if main_cxx != 'clang++' else 'g++'
+        if subprocess.run(['which', other], stdout=subprocess.DEVNULL, stderr=subprocess.DEVNULL).returncode == 0:
+            compilers.append(other)
+    res = []
+    for c in compilers:
+        for n in stds:
+            std = 'c++%d' % n
+            if (c, std) == (main_cxx, cxx['config']['std']):
+                continue
+            res.append((('std=%s' % std) if c == main_cxx else '%s,std=%s' % (c, std), c, std))
+    return res
+
+
+def variant_tables(ctx, cxx):
+    """-> [(label, table)] ; a configuration whose probe does not build / run is reported (the project declares the standard)."""
+    from concurrent.futures import ThreadPoolExecutor
+    cfgs = other_configs(ctx, cxx)
+
+    def one(cfg):
+        label, c, std = cfg
+        return cx.extract(fv.REPO, os.path.join(fv.BUILD, 'c03_' + re.sub(r'[^A-Za-z0-9]+', '_', label)), cxx=c, std=std)
+    res = []
+    with ThreadPoolExecutor(max_workers=4) as ex:
+        futs = [(cfg, ex.submit(one, cfg)) for cfg in cfgs]
+        for cfg, f in futs:
+            try:
+                res.append((cfg[0], f.result()))
+            except cc.TranslateError as e:
+                ctx.violation('C03/cxx-config/%s/probe-does-not-build' % cfg[0],
+                              'the C++ tables cannot be obtained with %s -std=%s (the project declares C++%s and later): %s'
+                              % (cfg[1], cfg[2], cxx['config']['std'][3:], str(e)[:600]),
+                              {'compiler': cfg[1], 'std': cfg[2], 'error': str(e)[:2000]})
+    ctx.cov['input_distribution']['cxx_configurations'] = [config_text(cxx) + ' (Lean tables)'] + [
+        config_text(t) for _, t in res]
+    return res
+
+
+def diff_variants(ctx, cxx, py, variants, reported, only=None):
+    for label, t in variants:
+        same = all(t[k] == cxx[k] for k in ('enums', 'const_groups', 'classification', 'structs', 'call_forms'))
+        ctx.case('C++ tables under %s' % config_text(t), nontrivial=True)
+        ctx.count('cxx_configurations_compared')
+        diff_tables(ctx, t, py, only, variant=label, reported=reported)
+        if not same:
+            # name the entries on which the two configurations differ (each is judged against Python above / in stage D)
+            diffs = []
+            a = dict((m, (c, r)) for m, _, c, r in cxx['classification'])
+            for m, _, c, r in t['classification']:
+                if a.get(m) != (c, r):
+                    diffs.append('IsCommand/IsResponse(MessageType::%s) = %s/%s under %s but %s/%s under %s' % (
+                        m, str(a.get(m, ('?', '?'))[0]).lower(), str(a.get(m, ('?', '?'))[1]).lower(), config_text(cxx),
+                        str(c).lower(), str(r).lower(), config_text(t)))
+            for k in ('enums', 'const_groups', 'structs', 'call_forms'):
+                if t[k] != cxx[k]:
+                    diffs.append('%s table differs' % k)
+            ctx.notes.append('C++ tables differ between %s and %s: %s' % (config_text(cxx), config_text(t), '; '.join(diffs[:6])))
+
+
+# ---- the registry relation after the package has been used (warm process) -----------------------------------
+def diff_usage(ctx, cxx, py, usage, only=None):
+    """usage = result of tools/c03_py_usage.py (one fresh interpreter; a snapshot of the subclasses of MessagePayload,
+    message_type_to_class, get_message_class(), is_command/is_response after each exercised entry point).  The snapshot right
+    after the import must be the translator's table; every later snapshot is judged by the same relation as the table (per
+    C++ struct: exactly one Python class carrying the type, declaring it, with the struct's version, and the registry /
+    get_message_class() resolve to it; no class for a type without a struct; classification unchanged)."""
+    tname = dict((v, m) for m, v, _, _ in reversed(cxx['classification']))
+    fresh = usage['fresh']
+    if sorted((k['name'], k['type'], k['version']) for k in fresh['payload']) != \
+            sorted((k['name'], k['type'], k['version']) for k in py['payload']) or \
+            sorted((r['type'], r['name'], r['version']) for r in fresh['registry']) != \
+            sorted((r['type'], r['name'], r['version']) for r in py['registry']):
+        ctx.disagree('the registry / payload classes read by tools/c03_py_usage.py right after the import differ from the '
+                     'translator table', {'usage_fresh': fresh['registry']})
+    ctx.cov['traces_validated_against_impl'] += len(fresh['payload']) + len(fresh['registry'])
+    stmts = usage.get('class_statements') or []
+    if 'class_statements_error' in usage:
+        ctx.disagree('scan of the class statements outside messages/ failed: %s' % usage['class_statements_error'], {})
+    found = {}
+
+    def viol(sig, desc, replay):
+        found.setdefault(sig, []).append((desc, replay))
+
+    def view(snap, t):
+        ks = [k for k in snap['payload'] if k['type'] == t]
+        reg = [r for r in snap['registry'] if r['type'] == t]
+        gm = [c for n, v, c in snap['get_message_class'] if v == t]
+        return ks, reg, gm
+
+    prev = fresh
+    for st in usage['steps']:
+        after = fresh if st['after'] == 'same' else st['after']
+        ctx.case('registry after %s' % st['label'], nontrivial=True)
+        ctx.count('entry_points_exercised')
+        if after == prev:
+            continue
+        how = 'after %s (step `%s` of tools/c03_py_usage.py: one fresh interpreter, steps %s)' % (
+            st['call'], st['label'], ' -> '.join(x['label'] for x in usage['steps'][:usage['steps'].index(st) + 1]))
+        base = {'entry_point': st['label'], 'executed': st['call'], 'exception_during_step': st.get('exception'),
+                'steps_before': [x['label'] for x in usage['steps'][:usage['steps'].index(st)]],
+                'observe': pus.replay_command(fv.REPO, st['label']), 'generated_log': usage.get('log')}
+        for s in cxx['structs']:
+            t = s['type']
+            ks, reg, gm = view(after, t)
+            if (ks, reg, gm) == view(prev, t):
+                continue
+            ks0, reg0, _ = view(prev, t)
+            T = tname.get(t, t)
+            made_by = [x for x in stmts if any(c[0] in [k['class'] for k in ks] for c in x.get('payload_classes_created', []))]
+            rep = dict(base, message_type=T, type_value=t, cxx_struct=s['name'], cxx={'file': s.get('file'), 'line': s.get('line')},
+                       cxx_version=s['version'], python_classes_carrying_the_type=[(k['class'], k['version'], 'declares MESSAGE_TYPE'
+                                                                                  if k['own_type'] else 'inherits MESSAGE_TYPE from %s' % k['bases']) for k in ks],
+                       message_type_to_class=[r['class'] for r in reg], get_message_class=gm,
+                       right_after_the_import={'classes': [k['class'] for k in ks0], 'message_type_to_class': [r['class'] for r in reg0]},
+                       class_statements=[{'file': 'python/fusion_engine_client/' + x['file'], 'line': x['line'], 'statement': x['statement'],
+                                          'in': x['scope']} for x in made_by])
+            stm = ('; created by %s:%d `%s` in %s()' % (made_by[0]['file'], made_by[0]['line'], made_by[0]['statement'], made_by[0]['scope'])) \
+                if made_by else ''
+            if len(ks) > 1:
+                viol('C03/registry-after-use/%s/several-python-classes' % st['label'],
+                     '%s, MessageType.%s is carried by %d Python payload classes: %s (right after the import: %s); C++ has the one '
+                     'struct %s%s' % (how, T, len(ks), ['%s%s' % (c, ' (x%d)' % n if n > 1 else '') for c, n in sorted(
+                         dict((k['class'], [q['class'] for q in ks].count(k['class'])) for k in ks).items())],
+                                      [k['class'] for k in ks0], s['name'], stm), rep)
+            elif not ks:
+                viol('C03/registry-after-use/%s/no-python-class' % st['label'],
+                     '%s, no Python payload class carries MessageType.%s any more (C++ struct %s)' % (how, T, s['name']), rep)
+            elif ks[0]['version'] != s['version']:
+                viol('C03/registry-after-use/%s/version-differs' % st['label'],
+                     '%s, %s.MESSAGE_VERSION = %s but C++ %s::MESSAGE_VERSION = %d' % (how, ks[0]['class'], ks[0]['version'], s['name'],
+                                                                                    s['version']), rep)
+            decl = [k['class'] for k in ks if k['own_type']]
+            resolved = set([r['class'] for r in reg] + [c for c in gm])
+            if len(reg) != 1 or len(decl) != 1 or resolved != set(decl):
+                viol('C03/registry-after-use/%s/resolves-to-another-class' % st['label'],
+                     '%s, message_type_to_class[MessageType.%s] = %s and get_message_class() = %s, but the class declaring the type '
+                     'is %s (right after the import the type resolved to %s)%s' % (
+                         how, T, [r['class'] for r in reg], gm, decl, [r['class'] for r in reg0], stm), rep)
+        known = set(s['type'] for s in cxx['structs'])
+        for k in after['payload']:
+            if k['type'] not in known and k not in prev['payload']:
+                viol('C03/registry-after-use/%s/no-cxx-struct' % st['label'],
+                     '%s, there is a Python payload class %s for type %s = %d, for which no C++ struct exists'
+                     % (how, k['class'], k['type_name'], k['type']), dict(base, py_class=k))
+        for key, fn in (('is_command', 'IsCommand'), ('is_response', 'IsResponse')):
+            if after[key] != prev[key]:
+                ch = sorted(set(after[key]) ^ set(prev[key]))
+                col = 2 if key == 'is_command' else 3
+                cx_true = set(tname[row[1]] for row in cxx['classification'] if row[col])
+                viol('C03/classification-after-use/%s/%s' % (st['label'], key),
+                     '%s, %s() answers differently for %s: %s(MessageType.%s) = %s but %s(MessageType::%s) = %s'
+                     % (how, key, ch, key, ch[0], ch[0] in after[key], fn, ch[0], str(ch[0] in cx_true).lower()),
+                     dict(base, changed=ch, **{key + '_afterwards': after[key]}))
+        if after['by_name'] != prev['by_name'] and not found:
+            ctx.notes.append('message_type_by_name changed at step %s: %s' % (
+                st['label'], [x for x in after['by_name'] if x not in prev['by_name']][:5]))
+        prev = after
+    # class statements outside messages/*.py that derive from a payload class by name: each registers itself when executed
+    n_kind = {}
+    undecided = []
+    for x in stmts:
+        n_kind[x['kind']] = n_kind.get(x['kind'], 0) + 1
+        ctx.case('class statement %s:%d' % (x['file'], x['line']), nontrivial=x['kind'] != 'other')
+        if x['kind'] == 'payload':
+            b = x['payload_bases'][0]
+            viol('C03/registry/payload-class-outside-messages/%s:%s' % (x['file'], x['name']),
+                 '%s:%d `%s` (in %s) derives from the payload class %s outside messages/*.py: executing the statement runs '
+                 'MessagePayload.__init_subclass__, which files the new class in message_type_to_class under %s - a second Python '
+                 'class for that type (classes created so far in the exercised process: %s)' % (
+                     x['file'], x['line'], x['statement'], x['scope'], b[0], b[1], x['payload_classes_created'] or 'none'),
+                 {'statement': x, 'observe': pus.replay_command(fv.REPO)})
+        elif x['kind'] != 'other' and not x['classes_created']:
+            undecided.append('%s:%d `%s`' % (x['file'], x['line'], x['statement']))
+    ctx.cov['input_distribution']['usage_steps'] = ['%s: %s%s' % (x['label'], x['call'][:160], ' [raised %s]' % x['exception'][:80]
+                                                                   if x.get('exception') else '') for x in usage['steps']]
+    ctx.cov['input_distribution']['class_statements_outside_messages'] = dict(
+        n_kind, not_decided_because_base_is_a_variable_and_statement_not_executed=undecided)
+    n_conf = 0
+    for sig, lst in sorted(found.items()):
+        desc, replay = lst[0]
+        if len(lst) > 1:
+            types = [r.get('message_type') for _, r in lst if r.get('message_type')]
+            desc += '; %d message types affected in this way: %s%s' % (len(lst), ', '.join(str(x) for x in types[:8]),
+                                                                     ', ...' if len(types) > 8 else '')
+            replay = dict(replay, all_message_types_affected=types)
+        if 'entry_point' in replay and n_conf < 2 and (only is None or sig == only):
+            n_conf += 1
+            try:          # shortest history: the log is written, then this step alone, in a fresh interpreter
+                alone = pus.run(fv.REPO, only=replay['entry_point'])
+                last = alone['steps'][-1]
+                replay['this_step_alone_in_a_fresh_interpreter'] = {
+                    'changes_the_registry': last['after'] != 'same',
+                    'message_type_to_class_entries_changed': [r for r in (last['after']['registry'] if last['after'] != 'same' else [])
+                                                              if r not in alone['fresh']['registry']][:10]}
+                if last['after'] != 'same':
+                    desc += '; reproduced with this step alone in a fresh interpreter'
+            except (RuntimeError, subprocess.TimeoutExpired) as e:
+                replay['this_step_alone_in_a_fresh_interpreter'] = {'not_run': str(e)[:200]}
+        if only is None or sig == only:
+            ctx.violation(sig, desc, replay)
+
+
+def usage_run(ctx):
+    try:
+        return pus.run(fv.REPO)
+    except (RuntimeError, subprocess.TimeoutExpired) as e:
+        ctx.disagree('the exercise of the package (tools/c03_py_usage.py) did not finish: %s' % str(e)[:400], {})
+        return None
+
+
 def random_sweeps(ctx, specs):
     from concurrent.futures import ThreadPoolExecutor
     res = []
@@ -658,9 +924,20 @@ def run(ctx, only=None):
         'tools/c03_cxx_extract.py as the reader of the DECLARATIONS of IsCommand/IsResponse (every textual occurrence of either name '
         'outside a function body must be a declaration it read, otherwise the translation fails)',
         'the hand-written pairing table `enumPairs` (incl. sentinels) and exemption list `pyNotOnWire` in lean/FeVerif/Spec/C03.lean',
+        'tools/c03_cxx_extract.py project_standards() as the reader of the language standards the project supports (CMAKE_CXX_STANDARD '
+        'and later of c++11/14/17/20); configuration macros a user may predefine (-DP1_HAVE_...=) are left at their defaults',
+        'tools/c03_py_usage.py as the list of entry points exercised before the registry is read again (a class statement '
+        'whose base is a variable and that none of the steps executes is listed in the coverage, not judged)',
         'g++/clang++ and CPython as the evaluators of the two languages']
     correspond(ctx, cxx, py)
-    diff_tables(ctx, cxx, py, only)
+    reported = set()
+    diff_tables(ctx, cxx, py, only, reported=reported)
+    # the same judgement on the tables printed under every later language standard (thorough: both compilers)
+    diff_variants(ctx, cxx, py, variant_tables(ctx, cxx), reported, only)
+    # the registry relation re-observed after the package has been used (fresh interpreter, every exercised entry point)
+    usage = usage_run(ctx)
+    if usage is not None:
+        diff_usage(ctx, cxx, py, usage, only)
     # the two orders of the Lean table + seeded random orders / nestings (each in its own fresh interpreter)
     n_random = 12 if ctx.thorough else 3
     diff_access(ctx, cxx, py, py['access'] + random_sweeps(ctx, [pacc.random_spec(ctx.seed, k) for k in range(n_random)]), only)
@@ -686,7 +963,7 @@ def check(ctx):
                        'IsResponse} x every call form the headers declare (each overload / member, called with an argument of its '
                        'declared parameter type); every module of python/fusion_engine_client scanned (aliases followed) for '
                        'statements modifying the classification sets / registry, each site executed in a fresh interpreter; every struct declaring MESSAGE_TYPE/MESSAGE_VERSION against the MessagePayload subclasses and '
-                       'message_type_to_class, both directions. A case = one (enum, name) / message type / struct / class; all are '
+                       'message_type_to_class, both directions; the C++ tables under every standard from CMAKE_CXX_STANDARD upwards; the registry relation again after every step of tools/c03_py_usage.py. A case = one (enum, name) / message type / struct / class; all are '
                        'non-trivial; distinct = distinct case text.')
     ctx.assumptions += [
         'a protocol enumeration on the Python side is an IntEnum subclass written as `class X(IntEnum)` in '
@@ -709,7 +986,12 @@ def replay(ctx, path):
         cxx, py = translate(ctx)
     except cc.TranslateError as e:
         raise fv.InfraError('replay: translators failed: %s' % e)
-    diff_tables(ctx, cxx, py, only=sig)
+    reported = set()
+    diff_tables(ctx, cxx, py, only=sig, reported=reported)
+    diff_variants(ctx, cxx, py, variant_tables(ctx, cxx), reported, only=sig)
+    usage = usage_run(ctx)
+    if usage is not None:
+        diff_usage(ctx, cxx, py, usage, only=sig)
     runs = list(py['access'])
     spec = (obj.get('input') or {}).get('spec')
     if spec and spec.get('label') not in [r['label'] for r in runs]:
